@@ -172,7 +172,7 @@ fn expected_frames(w: &Wav, spec: &WavSpec) -> Vec<Frame> {
 /// boundaries.
 /// Returns the output frames, the first decoder error, and for every seek whether the decoder
 /// thread had already ended when the seek was issued.
-fn stream_all(data: StreamingSoundData<FromFileError>, rate: u32, max: usize, seeks: &[(usize, f64)]) -> Result<(Vec<Frame>, Option<String>, Vec<(bool, u64)>), Failure> {
+fn stream_all(data: StreamingSoundData<FromFileError>, rate: u32, max: usize, seeks: &[(usize, f64)], pre_by: &[f64]) -> Result<(Vec<Frame>, Option<String>, Vec<(bool, u64)>), Failure> {
 	streamctl::install();
 	streamctl::set_callback_active(false);
 	let mark = streamctl::mark();
@@ -180,13 +180,17 @@ fn stream_all(data: StreamingSoundData<FromFileError>, rate: u32, max: usize, se
 	// (otherwise where a seek "before the first callback" lands in the stream is a race)
 	streamctl::set_default_budget(Some(0));
 	let made = data.into_sound();
-	streamctl::set_default_budget(None);
 	let (mut sound, mut handle): (Box<dyn Sound>, StreamingSoundHandle<FromFileError>) = match made {
 		Ok(x) => x,
-		Err(e) => return Ok((vec![], Some(format!("{e:?}")), vec![])),
+		Err(e) => {
+			streamctl::set_default_budget(None);
+			return Ok((vec![], Some(format!("{e:?}")), vec![]));
+		}
 	};
 	let id = handle.verif_id();
+	// (the default budget applies when the thread checks in, which may be after into_sound returns)
 	streamctl::adopt(id, mark);
+	streamctl::set_default_budget(None);
 	let info = MockInfoBuilder::new().build();
 	let dt = 1.0 / rate as f64;
 	let mut out = vec![];
@@ -195,10 +199,15 @@ fn stream_all(data: StreamingSoundData<FromFileError>, rate: u32, max: usize, se
 	let mut seek_marks: Vec<(bool, u64)> = vec![];
 	let mut idle = 0;
 	while out.len() < max {
-		for (at, pos) in seeks {
+		for (j, (at, pos)) in seeks.iter().enumerate() {
 			if *at == k {
 				let st = streamctl::state(id);
 				seek_marks.push((st.ended, st.pushed));
+				// optionally a relative seek first: the decoder then performs two seeks in one step,
+				// and the absolute one decides where playback continues
+				if let Some(by) = pre_by.get(j).copied().filter(|b| *b != 0.0) {
+					handle.seek_by(by);
+				}
 				handle.seek_to(*pos);
 			}
 		}
@@ -304,7 +313,7 @@ impl Property for C18 {
 		"C18"
 	}
 	fn rule(&self) -> &'static str {
-		"four kinds of cases. (1) An independent RIFF/WAVE writer produces PCM 8/16/24/32-bit integer and 32/64-bit float files, 1..6 channels (plain and extensible headers), 0..5000 frames, any sample rate; StaticSoundData::from_cursor must return exactly the encoded sample rate, frame count and samples (exact for <= 24-bit integers and f32, 1 ulp for 32-bit integers and f64), mono duplicated, more than two channels rejected with the documented error. (2) The same bytes through StreamingSoundData::from_cursor, played at rate 1 on a device at the file's rate (decoder kept ahead through hook H2), must produce exactly the frames of the static decode, from any start position; with index-coded content and a sequence of seek_to calls every run of output frames after a seek must continue the file contiguously from the requested frame. (3) Every single-byte corruption (header-biased) and every truncation point of a valid file must give an error value, or - for truncations - a prefix of the original frames, and never more frames than the data chunk can hold; never a panic, and the watchdog catches hangs. (4) The audio files shipped under crates/examples/assets are streamed and loaded and compared frame for frame, with seeks. Non-trivial = a multi-packet file (> 1152 frames), a seek, or a corruption inside the header; distinct = distinct decoded choices."
+		"four kinds of cases. (1) An independent RIFF/WAVE writer produces PCM 8/16/24/32-bit integer and 32/64-bit float files, 1..6 channels (plain and extensible headers), 0..5000 frames, any sample rate; StaticSoundData::from_cursor must return exactly the encoded sample rate, frame count and samples (exact for <= 24-bit integers and f32, 1 ulp for 32-bit integers and f64), mono duplicated, more than two channels rejected with the documented error. (2) The same bytes through StreamingSoundData::from_cursor, played at rate 1 on a device at the file's rate (decoder kept ahead through hook H2), must produce exactly the frames of the static decode, from any start position; with index-coded content and a sequence of seek_to calls (two fifths of them to packet starts, half of them preceded in the same gap by a seek_by, so that the decoder seeks twice in one step) every run of output frames after a seek must continue the file contiguously from the requested frame. (3) Every single-byte corruption (header-biased) and every truncation point of a valid file must give an error value, or - for truncations - a prefix of the original frames, and never more frames than the data chunk can hold; never a panic, and the watchdog catches hangs. (4) The audio files shipped under crates/examples/assets are streamed and loaded and compared frame for frame, with seeks. Non-trivial = a multi-packet file (> 1152 frames), a seek, or a corruption inside the header; distinct = distinct decoded choices."
 	}
 	fn assumptions(&self) -> Vec<String> {
 		vec![
@@ -373,6 +382,7 @@ impl Property for C18 {
 					start = start.min(spec.frames - 20000);
 				}
 				let mut seeks = vec![];
+				let mut pre_by: Vec<f64> = vec![];
 				if with_seeks {
 					// the decoder runs up to 16384 frames ahead and ends when it has decoded the last frame;
 					// a seek issued after that is lost (known finding). Unless known classes are wanted,
@@ -383,19 +393,24 @@ impl Property for C18 {
 					}
 					let mut at = 0;
 					for _ in 0..src.usize_in(1, 3) {
-						let (target, step) = if safe { (src.usize_in(0, spec.frames - 20000), src.usize_in(0, 5)) } else { (src.usize_in(0, spec.frames - 1), src.usize_in(0, 40)) };
+						let (mut target, step) = if safe { (src.usize_in(0, spec.frames - 20000), src.usize_in(0, 5)) } else { (src.usize_in(0, spec.frames - 1), src.usize_in(0, 40)) };
+						// packet starts (WAV is read in packets of 1152 frames) and the very beginning are
+						// where a decoder's seek bookkeeping has its edge
+						if src.chance(2, 5) {
+							target = target / 1152 * 1152;
+						}
 						at += step;
 						seeks.push((at, target as f64 / spec.rate as f64));
+						pre_by.push(if src.chance(1, 2) { src.pick(&[1.0f64, -1.0]) * src.usize_in(1, 3000) as f64 / spec.rate as f64 } else { 0.0 });
 					}
-					seeks.sort_by_key(|s| s.0);
 				}
-				ctx.describe(|| format!("streaming vs static of {spec:?}, start frame {start}, seeks {seeks:?}"));
+				ctx.describe(|| format!("streaming vs static of {spec:?}, start frame {start}, seeks {seeks:?}, each preceded by seek_by {pre_by:?}"));
 				let w = encode(&spec);
 				let st = StaticSoundData::from_cursor(Cursor::new(w.bytes.clone())).map_err(|e| Failure::simple("valid-file-loads", format!("{e:?}; {spec:?}")))?;
 				let data = monitor::catch(|| StreamingSoundData::from_cursor(Cursor::new(w.bytes.clone()))).map_err(|info| Failure::panic("decode-", &info))?;
 				let data = data.map_err(|e| Failure::simple("valid-file-streams", format!("a valid WAV file could not be opened for streaming: {e:?}; {spec:?}")))?;
 				let data = data.start_position(PlaybackPosition::Samples(start));
-				let (out, err, marks) = stream_all(data, spec.rate, spec.frames * (seeks.len() + 1) + 40000, &seeks)?;
+				let (out, err, marks) = stream_all(data, spec.rate, spec.frames * (seeks.len() + 1) + 40000, &seeks, &pre_by)?;
 				ensure!(err.is_none(), "valid-file-streams", "streaming a valid file reported {err:?}; {spec:?}");
 				if seeks.is_empty() {
 					let want = &st.frames[start..];
@@ -533,7 +548,7 @@ impl Property for C18 {
 					let secs = data.duration().as_secs_f64();
 					if claimed < 200_000 && claimed > 0 && secs > 0.0 {
 						let rate = ((claimed as f64 / secs).round() as u32).max(1);
-						let (out, _err, _) = stream_all(data, rate, claimed + 2048, &[])?;
+						let (out, _err, _) = stream_all(data, rate, claimed + 2048, &[], &[])?;
 						let nonzero = out.iter().filter(|f| **f != Frame::ZERO).count();
 						ensure!(nonzero <= bytes.len(), "no-invented-samples", "streaming a {}-byte damaged file produced {nonzero} non-silent frames; {spec:?}", bytes.len());
 					}
@@ -560,7 +575,7 @@ impl Property for C18 {
 				}
 				let data = data.start_position(PlaybackPosition::Samples(start));
 				let limit = ctx.tier.pick(30_000, 200_000);
-				let (out, err, _) = stream_all(data, st.sample_rate, limit, &[])?;
+				let (out, err, _) = stream_all(data, st.sample_rate, limit, &[], &[])?;
 				ensure!(err.is_none() || out.len() >= (n - start).min(limit), "asset-streams", "{}: streaming reported {err:?}", path.display());
 				let m = (n - start).min(out.len()).min(limit);
 				for i in 0..m {
